@@ -210,7 +210,6 @@ package atree
 //@   assume forall it *mapElementIterator :: {it.elements} it != nil && allocated(it) ==> it.elements != nil && 0 <= it.index && (is(it.elements, *hkeyElements) || is(it.elements, *singleElements)) because "nested cursors are created by this function with a non-nil element list and index 0"
 //@   assume inNest(i, i) && (i.nestedIterator != nil ==> !inNest(i.nestedIterator, i) && (forall r ref :: {inNest(i.nestedIterator, r)} inNest(i.nestedIterator, r) ==> inNest(i, r))) because "nested cursors form an acyclic chain (each is created fresh by its parent)"
 //@   assume forall s *singleElement :: {s.key} s != nil ==> s.key != nil because "tree invariant: stored elements have non-nil keys"
-//@   ensures[C13] old(i.nestedIterator) != nil && (err != nil || key != nil) ==> i.index == old(i.index)
 //@   ensures[C13] i.elements == old(i.elements)
 //@   ensures[C13] err == nil && key == nil && old(i.nestedIterator) == nil ==> old(i.index) >= ecnt(i.elements) || !is(elemAt(i.elements, old(i.index)), *singleElement)
 //@   ensures[C13] err == nil && old(i.nestedIterator) == nil && old(i.index) < ecnt(i.elements) && is(elemAt(i.elements, old(i.index)), *singleElement) ==>
